@@ -24,7 +24,7 @@ MANIFEST = {
     "text": "CsvImport.tla models the importer over the row stream (current timestamp, pending per interface/timestamp, written "
             "blocks, read/imported/skipped). TLC proves on the bounded model that the destination is the additive aggregation "
             "of the accepted rows, read = imported + skipped and a time regression fails. Every row-class sequence up to depth 3 x 2 "
-            "(thorough: depth 4 x 4) schema variants, every unusable-row kind x 8 schema variants, and simulated sequences of 12 rows "
+            "(thorough: depth 4 x 4) schema variants, every unusable-row kind x 8 schema variants at depth 2 (thorough: depth 3 x the 4 other variants), and simulated sequences of 12 rows "
             "are executed on the real importer; Summary and queried rows are compared with the model state.",
     "note": "Concrete addresses, ports, protocols, interface names and the four timestamp layouts (one day, across midnight, "
             "off the 5-minute grid, days apart) are drawn from the seed; after a rejected (time-regressing) input only the "
@@ -103,11 +103,13 @@ def main():
         vlib.require(len(g.traces) > 3000, "generator produced too few behaviours (%d)" % len(g.traces))
         run.add_tlc(g, "CsvImportGen(depth %d, %d schemas)" % ((4, 4) if thorough else (3, 2)))
         gens.append(("classes", g.traces, False))
-        g2 = vlib.tlc("csvimport", "CsvImportGen", "CsvImportGenKinds.cfg", scratch=sc, timeout=1200,
-                      consts="CONSTANT Depth = %d" % (3 if thorough else 2))
+        kcfg = open(os.path.join(vlib.SPEC, "csvimport", "CsvImportGenKinds.cfg")).read()
+        if thorough:
+            kcfg = kcfg.replace("Depth = 2", "Depth = 3").replace("Schemas <- GenSchemas8", "Schemas <- GenSchemas4b")
+        g2 = vlib.tlc("csvimport", "CsvImportGen", {"cfg_text": kcfg}, scratch=sc, timeout=1200)
         vlib.expect_tlc_ok(g2, "CsvImportGenKinds")
         vlib.require(len(g2.traces) > 3000, "kinds generator produced too few behaviours (%d)" % len(g2.traces))
-        run.add_tlc(g2, "CsvImportGenKinds(depth %d, 8 schemas, all unusable-row kinds)" % (3 if thorough else 2))
+        run.add_tlc(g2, "CsvImportGenKinds(all unusable-row kinds; %s)" % ("depth 3, the 4 other schemas" if thorough else "depth 2, 8 schemas"))
         gens.append(("kinds", g2.traces, False))
         nsim = 1500 if thorough else 150
         g3 = vlib.tlc("csvimport", "CsvImportGen", "CsvImportGenSim.cfg", workers=1, simulate=nsim, depth=30, seed=run.seed,
